@@ -101,8 +101,17 @@ func (i *seqIterator) Next() bool {
 			i.Seq = nil
 			return true
 		}
-		i.Seq = s.Arg(1)
-		i.current = s.Arg(0)
+		// A conjunction is transparent to cut wherever it's nested: ((P, Q), R) is read as (P, (Q, R)).
+		first, rest := s.Arg(0), s.Arg(1)
+		for {
+			c, ok := i.Env.Resolve(first).(Compound)
+			if !ok || c.Functor() != atomComma || c.Arity() != 2 {
+				break
+			}
+			first, rest = c.Arg(0), atomComma.Apply(c.Arg(1), rest)
+		}
+		i.Seq = rest
+		i.current = first
 		return true
 	default:
 		i.current = s
